@@ -1,4 +1,4 @@
-import SignaloModel.Proofs.TableChecks
+import SignaloModel.Proofs.SgTableChecks
 import SignaloModel.Proofs.FirProofs
 import Mathlib.Tactic.NormNum
 import Mathlib.Tactic.Linarith
@@ -54,7 +54,7 @@ namespace SignaloModel.Tables
 open SignaloModel.Fir SignaloModel.Gen
 
 /-- **C05 (tables)**: coefficient sum within `1e-5` of 1 and first moment within `1e-4` of 0, for all 13 widths -/
-theorem sg_moments : ∀ p ∈ sgTables, absR (lsum p.2 - 1) ≤ dec 1 5 ∧ absR (wsum 0 p.2) ≤ dec 1 4 := by
+theorem sg_moments : ∀ p ∈ sgTables, absS (lsumS p.2 - 1) ≤ dec 1 5 ∧ absS (wsum 0 p.2) ≤ dec 1 4 := by
   decide +kernel
 
 end SignaloModel.Tables
